@@ -317,6 +317,7 @@ PROPS = {
             {"name": "stress", "run": "TestGetOrAddStress", "kind": "plain", "env": {"VERIF_ROUNDS": {Q: 300, T: 2000}}},
             {"name": "regression", "run": "TestGetOrAddRegressionF23a", "kind": "plain"},
             {"name": "numbering", "run": "TestNumberingStress", "kind": "plain", "shards": {Q: 2, T: 16}, "env": {"VERIF_ROUNDS": {Q: 400, T: 6000}}},
+            {"name": "addfeature", "run": "TestAddFeatureStress", "kind": "plain", "shards": {Q: 2, T: 16}, "env": {"VERIF_ROUNDS": {Q: 4000, T: 100000}}},
         ],
     },
     "C05": {
